@@ -6,6 +6,7 @@ import (
 	"encoding/json"
 	"fmt"
 	"math/big"
+	"os"
 	"strings"
 	"testing"
 
@@ -71,11 +72,11 @@ type c15Machine struct {
 
 	// genesis round trips (restart of the module from its own export)
 	nReimport, nReimportMulti, nReimportZeroSupply, nReimportZeroBalance, nReimportMaxSupply, nReimportHanded int
-	nReimportEmptyClass                                                                                        int
-	sinceReimport                                                                                              int // accepted messages since the last round trip (-1 = no round trip yet)
-	multiAtReimport                                                                                            bool
-	nMintNewAfterReimport, nMintNewAfterMultiReimport, nIssueAfterReimport, nMintExistingAfterReimport         int
-	nSpendAfterReimport                                                                                        int
+	nReimportEmptyClass                                                                                       int
+	sinceReimport                                                                                             int // accepted messages since the last round trip (-1 = no round trip yet)
+	multiAtReimport                                                                                           bool
+	nMintNewAfterReimport, nMintNewAfterMultiReimport, nIssueAfterReimport, nMintExistingAfterReimport        int
+	nSpendAfterReimport                                                                                       int
 	// optional fields and actors
 	cnt map[string]int
 }
@@ -245,7 +246,8 @@ func (m *c15Machine) Next(t *rapid.T) c15Op {
 		if (m.holding() >= 2 && m.nReimportMulti == 0) || (zero && m.nReimportZeroSupply == 0) {
 			odds = 8
 		}
-		if rapid.IntRange(0, odds-1).Draw(t, "reimport") == 0 {
+		// (rapid draws small values far more often than large ones; the remainder of a large draw is close to uniform)
+		if rapid.IntRange(0, 1<<20).Draw(t, "reimport")%odds == odds-1 {
 			return c15Op{Kind: "reimport", Denom: -1, MT: -1}
 		}
 	}
@@ -669,6 +671,9 @@ func (m *c15Machine) applyReimport() error {
 	if err != nil {
 		return pbt.Failf("C15/reimport-"+stage, "mt genesis round trip with %d classes / %d tokens: %v\nexported: %s", len(m.denoms), len(m.mts), err, before)
 	}
+	if err := m.check(); err != nil { // classes, tokens, balances and supplies as before
+		return err
+	}
 	if after := m.exportJSON(); !bytes.Equal(before, after) {
 		return pbt.Failf("C15/reimport-export-differs", "the restored state exports a different genesis\nbefore: %s\nafter:  %s", before, after)
 	}
@@ -686,15 +691,15 @@ func (m *c15Machine) applyReimport() error {
 	m.nReimportHanded += b2i(handed)
 	m.nReimportEmptyClass += b2i(empty)
 	m.sinceReimport, m.multiAtReimport = 0, multi
-	if err := m.check(); err != nil {
-		return err
-	}
 	return m.probeIDs()
 }
 
 // probeIDs continues the history on a throw-away branch with one new class and one new token in every class (minted
 // by the class owner): none of the generated ids may have been generated before.
 func (m *c15Machine) probeIDs() error {
+	if os.Getenv("VERIF_C15_NO_PROBE") != "" { // development switch: measures what the history alone detects
+		return nil
+	}
 	b := m.c.Branch()
 	seen := map[string]bool{}
 	res := b.Deliver(&mttypes.MsgIssueDenom{Name: "probe", Sender: m.addr(0)})
